@@ -7,7 +7,7 @@ CONSTANTS
   NewObjs <- MCNewObjs
   MaxDepth = 5
   Starts <- StartsRes
-  Allowed = {"content.sharedStream", "resources.nameCollision"}
+  Allowed = {}
   Emit = TRUE
   EmitMod = 1000
   EmitModV = 200
